@@ -21,6 +21,7 @@ for k in range(n):
     ev = pc.event_text(c, k)
     head = ev[0] + " " + " ".join(ev[1:4])[:40] + " | " + (ev[-1].split("\\x0d")[0][:70] if ev[0] in ("udp", "data") else "")
     lab = lambda o: [(l.decode(), len(b)) for l, b in o[0]] if o else None
-    print(k, head, "| impl", lab(ie[k]) if k < len(ie) else None, "| model", lab(me[k]) if k < len(me) else None)
+    print(k, head, "| impl", lab(ie[k]) if k < len(ie) else None, ie[k][1] if k < len(ie) else None,
+          "| model", lab(me[k]) if k < len(me) else None, me[k][1] if k < len(me) else None)
 print("trailers", it, mt)
 shutil.rmtree(work)
